@@ -166,3 +166,37 @@ Arguments h_thetas {P S}.
 Arguments f_n {P S}.
 Arguments f_shared {P S}.
 Arguments f_groups {P S}.
+
+(* ---- vocabulary of the source translation ------------------------------------------------
+   (harness/src_functions.py C10_*, Generated/SrcThetas.v, Proofs/C10Source.v)
+
+   A holder OBJECT as the translated methods of ThetaHolder see it: (class id, attribute values).
+   Class id 0 is ThetaHolder itself, any other id stands for a subclass (there is none in the
+   tree); `type(a) != type(b)` compares class ids.  The two attributes are the fields of the
+   model's holder: self._n_thetas = h_declared, self.thetas = h_thetas.  An attribute store
+   rebuilds the object with one field replaced.  py_blank c is what object.__new__ hands to
+   __init__: an instance of class c whose attributes do not exist yet; the placeholder values are
+   both overwritten by __init__ (Proofs/C10Source.v src_init_is_model: the result does not depend
+   on them).  as_obj is the representation map of the linking theorems: a model holder seen as an
+   instance of ThetaHolder itself. *)
+Section PyObjects.
+Variables P S : Type.
+Definition pyobj := (Z * holder P S)%type.
+Definition py_class (o : pyobj) : Z := fst o.
+Definition attr_thetas (o : pyobj) : list (theta P S) := h_thetas (snd o).
+Definition attr_n_thetas (o : pyobj) : Z := h_declared (snd o).
+Definition set_attr_thetas (o : pyobj) (l : list (theta P S)) : pyobj :=
+  (fst o, {| h_declared := h_declared (snd o); h_thetas := l |}).
+Definition set_attr_n_thetas (o : pyobj) (n : Z) : pyobj :=
+  (fst o, {| h_declared := n; h_thetas := h_thetas (snd o) |}).
+Definition py_blank (c : Z) : pyobj := (c, empty_holder P S 0).
+Definition as_obj (h : holder P S) : pyobj := (0, h).
+End PyObjects.
+
+Arguments py_class {P S}.
+Arguments attr_thetas {P S}.
+Arguments attr_n_thetas {P S}.
+Arguments set_attr_thetas {P S}.
+Arguments set_attr_n_thetas {P S}.
+Arguments py_blank {P S}.
+Arguments as_obj {P S}.
